@@ -108,7 +108,7 @@ assert seen == [{'x': {'a': 1, 'b': 2}}, {'x': {'a': 1}}, {'x': {'a': 1, 'b': 2}
 '''
 
 
-def bounded_checks(tier, seed, pid="C02", variants="range(6)"):
+def bounded_checks(tier, seed, pid="C02", variants="range(7)"):
     """What connects the verified decision points (recursion through object / list completion,
     ordering, null propagation, fragments and directives in CollectFields) is not under contract:
     a reference executor written from the specification stands in, bounded (props/C02_ref.py)."""
@@ -129,7 +129,7 @@ def bounded_checks(tier, seed, pid="C02", variants="range(6)"):
              "bound": "one schema; validated documents { P { A [B [C]] } } over 27 + 16 selection atoms (aliases, "
                       "arguments and defaults, @skip/@include literal and variable, inline fragments, spreads), all "
                       "single atoms and ordered pairs + 400 seeded triples per parent; data variants " + variants + " "
-                      "(conforming, nulls, wrong kinds, raising resolvers); "
+                      "(conforming, nulls, wrong kinds, raising resolvers, non-dict mappings); "
                       + ("every request" if tier == "thorough" else "every 2nd request") + "; sync only, no @defer/@stream",
              "failed": res is not None, "input": res, "output": outp[-1500:]}]
 
